@@ -49,6 +49,37 @@ func runC18(c *h.Ctx) {
 		cs.Distinct(fmt.Sprintf("jj-%v-%s", k.mappedI16, shapeKey(k.want)[:min(len(shapeKey(k.want)), 14)]))
 	})
 
+	// ---- (a'') hard double spellings (exact expansions, ties, near-ties) in every flavour
+	var dblDesc *thrift.TypeDescriptor
+	c.Run("j2t-double-join", c.N(1000, 30000), func(cs *h.Case) {
+		if dblDesc == nil {
+			st := &gen.StructT{Name: "Dbl", Fields: []*gen.FieldT{
+				{ID: 1, Name: "d", T: &gen.Type{T: tref.DOUBLE}},
+				{ID: 2, Name: "l", T: &gen.Type{T: tref.LIST, Elem: &gen.Type{T: tref.DOUBLE}}},
+			}}
+			d, _, err := ParseRoot(&gen.Schema{Structs: []*gen.StructT{st}, Root: st}, thrift.NewDefaultOptions())
+			if err != nil {
+				cs.Viol("flavour:parse-idl", "err", err)
+				return
+			}
+			dblDesc = d
+		}
+		doc, _, ok := doubleSpellingCase(cs)
+		if !ok {
+			return
+		}
+		cs.Info("doc", trunc(doc))
+		cv := j2t.NewBinaryConv(conv.Options{})
+		out, err := cv.Do(context.Background(), dblDesc, []byte(doc))
+		res := "rejected"
+		if err == nil {
+			res = "ok:" + fmt.Sprintf("%x", out)
+		}
+		cs.Res("j2t-double", res)
+		cs.Cover("j2t_double_join_cases")
+		cs.Distinct(fmt.Sprintf("jd-%d", cs.I))
+	})
+
 	// ---- (a) the same j2t case list in every flavour: results are joined by the driver ------------
 	c.Run("j2t-join", c.N(4000, 120000), func(cs *h.Case) {
 		cc, ok := c02Make(cs)
